@@ -56,9 +56,14 @@ def gen_case(rng, tier):
         p = {"all": True, "none": False, "alt": b % 2 == 0, "rand": rng.chance(0.6)}[mode]
         kinds.append(0 if p else rng.weighted([(-1, 3), (-2, 2)]))
     alloc = [b for b, k in enumerate(kinds) if k == 0]
-    place = rng.weighted([("identity", 2), ("reverse", 2), ("random", 4), ("gaps", 2), ("high", 1)])
+    place = rng.weighted([("identity", 2), ("reverse", 2), ("random", 4), ("gaps", 2), ("high", 1), ("logical", 3)])
     slots = list(range(len(alloc)))
-    if place == "reverse":
+    if place == "logical":
+        # the physical index is the logical block number: behind k unallocated blocks the next allocated block lies
+        # exactly k + 1 physical blocks after the previous one (where a reader that merely advances a position
+        # counter instead of seeking happens to be right or wrong depending on what lies between)
+        slots = list(alloc)
+    elif place == "reverse":
         slots.reverse()
     elif place == "random":
         rng.shuffle(slots)
@@ -81,6 +86,8 @@ def gen_case(rng, tier):
          "file_size": max(fsize, data_offset + 1), "place": place, "mode": mode, "salt": rng.randrange(1 << 30),
          "kind": "plain"}
     c["reqs"] = gen_requests(rng, size, bs, n=6, big=(12 * (1 << 20) if rng.chance(0.3) else 0))
+    if size <= 4 * (1 << 20):
+        c["reqs"].append(["raw", 0, size])          # every block of the image in one call
     # one case in four is opened over a parent (a fully allocated image of the same size): unallocated blocks
     # then read from the parent while zero blocks must still read as zeros
     c["parent_salt"] = rng.randrange(1 << 30) if rng.chance(0.25) else None
